@@ -586,11 +586,32 @@ def run_check(mod, tier, seed, runs=None, jobs=None, wall=None, selfcheck=True, 
         print('VIOLATION property=%s replay=%s' % (prop, path))
         exit_code = 1
 
-    # --- known findings
-    for vclass, n in sorted(agg['known'].items()):
+    # --- known findings: one line per listed finding of this property, whether a seeded run met it or the
+    # fixed canary case of the check module reproduces it (so the line does not depend on the seed)
+    canaries = mod.canaries() if hasattr(mod, 'canaries') else {}
+    canary_status = {}
+    for (kprop, vclass), text in sorted(known.items()):
+        if kprop != prop:
+            continue
+        n = agg['known'].get(vclass, 0)
+        status = 'no-canary'
+        if vclass in canaries:
+            cout = run_isolated(mod, canaries[vclass], limit=120)
+            if cout.get('harness_error'):
+                agg['harness_errors'].append((-2, 'canary of %s failed:\n%s' % (vclass, cout['harness_error'])))
+                status = 'error'
+            else:
+                creal, ckn = violation_classes(cout, prop, known)
+                status = 'reproduced' if any(v['class'] == vclass for v in ckn) else 'not-reproduced'
+                for v in creal:
+                    agg['violations_canary'] = agg.get('violations_canary', []) + [v]
+        canary_status[vclass] = status
         ex = agg['known_examples'].get(vclass)
-        print('KNOWN-FINDING: property=%s class=%s observed=%d (%s) first_run=%s' % (
-            prop, vclass, n, known[(prop, vclass)][:300], ex[0] if ex else '?'))
+        if n or status == 'reproduced':
+            print('KNOWN-FINDING: property=%s class=%s observed=%d canary=%s (%s) first_run=%s' % (
+                prop, vclass, n, status, text[:300], ex[0] if ex else '-'))
+        else:
+            print('note: listed known finding class=%s was neither met by a seeded run nor reproduced by its canary (canary=%s)' % (vclass, status))
 
     # --- determinism self-test (a mismatch is a harness error, never a verdict)
     det = {'checked': 0, 'ok': True}
@@ -632,6 +653,7 @@ def run_check(mod, tier, seed, runs=None, jobs=None, wall=None, selfcheck=True, 
         'c_backend': st['note'] + ('' if st.get('with_libyaml') else ' [not importable]'),
         'jobs': jobs,
         'known_findings_observed': dict(agg['known']),
+        'known_findings_canaries': canary_status,
         'determinism_selftest': det,
         'violation_classes': [{'class': c, 'occurrences': n, 'replay': p} for c, n, p in reported],
         'exhaustive': False,
